@@ -17,7 +17,10 @@ test test_shape_emoji_hair_component ... FAILED
 test test_shape_emoji_sequence ... FAILED
 test test_shape_emoji_zwj_sequence ... FAILED"
 if [ ! -d $W ]; then git -C /repo worktree add --detach $W HEAD -q || exit 2; fi
-git -C $W checkout -q --detach $(git -C /repo rev-parse HEAD); git -C $W checkout -q -- . ; rm -f $W/tests/seeded_demo.rs
+# SEED_VERIFY_REV=<commit>: verify against an earlier /repo commit (a patch superseded by a later fix: commit is confirmed
+# against the parent of that commit)
+REV=${SEED_VERIFY_REV:-$(git -C /repo rev-parse HEAD)}
+git -C $W checkout -q --detach $REV; git -C $W checkout -q -- . ; rm -f $W/tests/seeded_demo.rs
 for D in "${DIRS[@]}"; do
   name=$(basename "$D")
   cd $W; git checkout -q -- . ; rm -f tests/seeded_demo.rs
@@ -34,7 +37,7 @@ for D in "${DIRS[@]}"; do
   cargo test --offline $FEAT --test seeded_demo > /tmp/seedverify_demo2.log 2>&1; rc_without=$?
   rm -f tests/seeded_demo.rs
   ok=true; [ $rc_with -ne 0 ] || ok=false; [ $rc_without -eq 0 ] || ok=false; [ -z "$other" ] || ok=false
-  python3 - "$D" "$rc_with" "$rc_without" "$other" "$ok" "$(git -C /repo rev-parse --short HEAD)" <<'PY'
+  python3 - "$D" "$rc_with" "$rc_without" "$other" "$ok" "$(git -C $W rev-parse --short HEAD)" <<'PY'
 import json,sys
 d,rw,rwo,other,ok,head=sys.argv[1:]
 json.dump({"applies":True,"demo_exit_with_change":int(rw),"demo_exit_without_change":int(rwo),"suite_failures_beyond_expected_10_and_demo":other.splitlines(),"confirmed":ok=="true","repo_head":head,"cmd":"tools/seed_verify.sh"},open(d+"/verify.json","w"),indent=1)
